@@ -10,13 +10,13 @@ def s1(test, qchecks, tchecks, qshards=4, tshards=16, timeout_q=240, timeout_t=1
 
 
 TESTS = {
-    "C01": [s1("TestC01_S1Conformance", 40000, 250000, qshards=8)],
+    "C01": [s1("TestC01_S1Conformance", 40000, 250000, qshards=8), s1("TestC01_S1Mid", 3000, 40000, timeout_t=2400)],
     "C02": [s1("TestC02_Linearizable", 600, 10000, qshards=8, timeout_t=3000)],
     "C03": [s1("TestC03_S1Visibility", 40000, 250000, qshards=6), s1("TestC03_S4Phases", 300, 3000, timeout_t=2400)],
-    "C04": [s1("TestC04_S1Bound", 30000, 200000), s1("TestC04_S1Burst", 1000, 10000), s1("TestC04_S3Bound", 5000, 60000, timeout_t=2400), s1("TestC04_S4Bound", 300, 3000, timeout_t=2400)],
-    "C05": [s1("TestC05_S1Bookkeeping", 30000, 200000), s1("TestC05_S1Burst", 1000, 10000), s1("TestC05_S3Bookkeeping", 5000, 60000, timeout_t=2400), s1("TestC05_S4Bookkeeping", 300, 3000, timeout_t=2400)],
-    "C06": [s1("TestC06_S1Events", 30000, 200000), s1("TestC06_S1Burst", 1000, 10000), s1("TestC06_S3Events", 5000, 60000, timeout_t=2400), s1("TestC06_S4Events", 300, 3000, timeout_t=2400)],
-    "C07": [s1("TestC07_S1Justified", 40000, 250000, qshards=8)],
+    "C04": [s1("TestC04_S1Bound", 30000, 200000), s1("TestC04_S1Burst", 1000, 10000), s1("TestC04_S3Bound", 5000, 60000, timeout_t=2400), s1("TestC04_S4Bound", 300, 3000, timeout_t=2400), s1("TestC04_S1Mid", 3000, 40000, timeout_t=2400)],
+    "C05": [s1("TestC05_S1Bookkeeping", 30000, 200000), s1("TestC05_S1Burst", 1000, 10000), s1("TestC05_S3Bookkeeping", 5000, 60000, timeout_t=2400), s1("TestC05_S4Bookkeeping", 300, 3000, timeout_t=2400), s1("TestC05_S1Mid", 3000, 40000, timeout_t=2400)],
+    "C06": [s1("TestC06_S1Events", 30000, 200000), s1("TestC06_S1Burst", 1000, 10000), s1("TestC06_S3Events", 5000, 60000, timeout_t=2400), s1("TestC06_S4Events", 300, 3000, timeout_t=2400), s1("TestC06_S1Mid", 3000, 40000, timeout_t=2400)],
+    "C07": [s1("TestC07_S1Justified", 40000, 250000, qshards=8), s1("TestC07_S1Mid", 3000, 40000, timeout_t=2400)],
     "C08": [s1("TestC08_SingleFlight", 50000, 400000, qshards=6), s1("TestC08_S4Overlap", 600, 6000, timeout_t=2400)],
     "C09": [s1("TestC09_WritePlacement", 50000, 400000, qshards=8), s1("TestC09_S1LateReloads", 30000, 250000, qshards=6)],
     "C10": [s1("TestC10_S1Loads", 40000, 250000, qshards=8), s1("TestC10_S2Waiters", 40000, 300000)],
@@ -29,5 +29,5 @@ TESTS = {
     "C17": [s1("TestC17_SeqModel", 20000, 300000), s1("TestC17_Concurrent", 300, 6000, timeout_t=2400), s1("TestC17_S3", 6000, 120000, timeout_t=2400), s1("TestC17_S1ReadBursts", 8000, 120000), s1("TestC17_StripeChurn", 1500, 40000, timeout_t=2400)],
     "C18": [s1("TestC18_Sketch", 150000, 1500000, qshards=8), s1("TestC18_Admission", 60000, 1000000)],
     "C19": [s1("TestC19_S1SaveLoad", 40000, 200000, qshards=8)],
-    "C20": [s1("TestC20_S1Stats", 40000, 250000, qshards=6), s1("TestC20_S4Stats", 300, 3000, timeout_t=2400)],
+    "C20": [s1("TestC20_S1Stats", 40000, 250000, qshards=6), s1("TestC20_S4Stats", 300, 3000, timeout_t=2400), s1("TestC20_S1Mid", 3000, 40000, timeout_t=2400)],
 }
